@@ -230,13 +230,21 @@ def run_dist(case, v):
 
 def run_shadow(case, v):
     np.random.seed((case["salt"] + 7) % 2**32)
-    gs = make_generator(case, shadow=True)
-    rec = []
+    # the energy source is a function whose successive values are known: every throw - the rejected ones included - must carry
+    # the next value of the source (an energy kept over a rejection would bias the returned spectrum towards the source's)
+    drawn, levels = [], [1e5, 1e11, 3e7, 1e9]
+
+    def source_energy():
+        drawn.append(levels[len(drawn) % len(levels)] * (1 + 1e-3 * (len(drawn) // len(levels) % 7)))
+        return drawn[-1]
+    gs = make_generator(case, shadow=True, energy=source_energy)
+    rec, thrown_E = [], []
     orig = gs.get_weights
 
     def wrapped(particle):
         w = orig(particle)
         rec.append(float(w[0]))
+        thrown_E.append(float(particle.energy))
         return w
     gs.get_weights = wrapped
     M, c0 = case["M"], gs.count
@@ -246,6 +254,9 @@ def run_shadow(case, v):
     thrown = gs.count - c0
     rec = np.array(rec)
     v.check(thrown == len(rec) and thrown >= M, "count increases by one for every throw including rejected ones", count=thrown, throws=len(rec), returned=M)
+    if drawn:
+        v.check(len(drawn) == len(thrown_E) and np.array_equal(np.array(drawn), np.array(thrown_E)), "every throw, rejected ones included, carries the next energy of the source",
+                draws=len(drawn), throws=len(thrown_E), first_difference=int(np.argmax(np.array(drawn[:min(len(drawn), len(thrown_E))]) != np.array(thrown_E[:min(len(drawn), len(thrown_E))]))) if drawn and thrown_E else -1)
     var = float((rec * (1 - rec)).sum())
     z = (M - rec.sum()) / np.sqrt(var) if var > 0 else 0.0
     v.close("events are rejected with probability 1 - survival weight (Bernoulli z)", abs(float(z)), 5.0, returned=M, thrown=int(thrown), expected_accepts=float(rec.sum()))
